@@ -17,6 +17,7 @@ LEVEL = 'exploration'
 U64 = (1 << 64) - 1
 YEAR = 365 * 86400
 MULT = {'s': 1, 'm': 60, 'h': 3600, 'd': 86400, 'w': 604800}
+PER_CFG = 250
 
 
 def norm_id(kind, value):
@@ -33,6 +34,11 @@ IP_POOL = ['192.0.2.1', '198.51.100.255', '10.0.0.1', '2001:db8::1', '2001:0db8:
 def gen_cases(n, r, now):
     cases = []
     delays = ['0s', '1s', '1h', '1d', '30d', '10w', '3650d']
+    rers = ['0s', '0s', '1s', '10s', '1h', '1d', '40d', '3650d']
+    # one configuration file per batch: its [global] section sets (or not) both options
+    glob = {}
+    for b in range(0, n, PER_CFG):
+        glob[b] = (r.choice(delays + [None]), r.choice(rers + [None]))
     for i in range(n):
         k = r.randint(1, 6)
         ids = []
@@ -59,7 +65,20 @@ def gen_cases(n, r, now):
         life_kind = r.choice(['epoch', 'past-year', 'past-second', 'now', 'plus-second', 'around-delay', 'month', 'quarter', 'y67', 'y68', 'y69',
                               'century', '9999', 'random', 'random', 'around-delay'])
         rd_txt = r.choice(delays)
-        rer_txt = r.choice(['0s', '0s', '1s', '10s', '1h', '1d', '40d', '3650d'])
+        rer_txt = r.choice(rers)
+        # where the effective value is written: on the certificate, on its endpoint or in [global]; the other levels carry decoys
+        g_rd, g_rer = glob[i - i % PER_CFG]
+        place = {}
+        for opt, gval, default in (('renew_delay', g_rd, '30d'), ('random_early_renew', g_rer, '0s')):
+            lvl = r.choice(['certificate', 'certificate', 'endpoint', 'endpoint', 'global'])
+            pool = delays if opt == 'renew_delay' else rers
+            place[opt] = {'level': lvl, 'endpoint_decoy': r.choice(pool + [None]) if lvl == 'certificate' else None}
+            if lvl == 'global':
+                if opt == 'renew_delay':
+                    rd_txt = gval or default
+                else:
+                    rer_txt = gval or default
+                place[opt]['level'] = 'global' if gval else 'default'
         rd = sum(int(x[:-1]) * MULT[x[-1]] for x in [rd_txt])
         off = {
             'epoch': None, 'past-year': -YEAR, 'past-second': -1, 'now': 0, 'plus-second': 2, 'month': 30 * 86400, 'quarter': 90 * 86400,
@@ -74,13 +93,14 @@ def gen_cases(n, r, now):
             na_unix = now + 120 + off          # the probe runs about two minutes at most after generation
             na_txt = time.strftime('%Y%m%d%H%M%SZ', time.gmtime(na_unix))
         # special huge settings on a few cases
-        if r.random() < 0.04:
+        if r.random() < 0.04 and place['renew_delay']['level'] in ('certificate', 'endpoint'):
             rd_txt, rd = '18446744073709551615s', U64
-        if r.random() < 0.04:
+        if r.random() < 0.04 and place['random_early_renew']['level'] in ('certificate', 'endpoint'):
             rer_txt = '18446744073709551615s'
         files = r.choice(['both'] * 8 + ['no-cert', 'no-key', 'none'])
         cases.append({'i': i, 'ids': ids, 'norm': norm, 'sans': sans, 'san_mode': san_mode, 'covered': covered, 'life_kind': life_kind,
-                      'not_after': na_txt, 'not_after_unix': na_unix, 'renew_delay': rd_txt, 'random_early_renew': rer_txt, 'files': files})
+                      'not_after': na_txt, 'not_after_unix': na_unix, 'renew_delay': rd_txt, 'random_early_renew': rer_txt, 'files': files,
+                      'place': place, 'global': {'renew_delay': g_rd, 'random_early_renew': g_rer}})
     return cases
 
 
@@ -116,12 +136,12 @@ def judge(case, rec, chk):
     hi = base_hi + tol
     for v in vals:
         if v > hi:
-            pb.append(('late', 'delay %.0f s is longer than notAfter - renew_delay = %.0f s (notAfter %s, renew_delay %s)' % (v, base_hi, case['not_after'], case['renew_delay'])))
+            pb.append(('late', 'delay %.0f s is longer than notAfter - renew_delay = %.0f s (notAfter %s, renew_delay %s)' % (v, base_hi, case['not_after'], case['renew_delay']) + ' [set at %s level; global %s]' % (case['place']['renew_delay']['level'], case['global']['renew_delay'])))
             break
         if v < lo:
             cls = 'early-zero' if v == 0 else 'early'
             pb.append((cls, 'delay %.0f s is shorter than notAfter - renew_delay - random_early_renew = %.0f s (notAfter %s [%s], renew_delay %s, random_early_renew %s)' % (
-                v, max(0, base_lo - rer), case['not_after'], case['life_kind'], case['renew_delay'], case['random_early_renew'])))
+                v, max(0, base_lo - rer), case['not_after'], case['life_kind'], case['renew_delay'], case['random_early_renew']) + ' [levels %s/%s; global %s]' % (case['place']['renew_delay']['level'], case['place']['random_early_renew']['level'], case['global'])))
             break
     if not pb and rer >= 10 and base_lo >= rer and len(vals) >= 6 and rer < (1 << 62):
         if len(set(vals)) < 2:
@@ -133,7 +153,7 @@ def probe_part(chk, tier, r):
     d = C.workdir('C06', 'sched')
     try:
         n = 3000 if tier == 'quick' else 60000
-        per_cfg = 250
+        per_cfg = PER_CFG
         now = int(time.time())
         cases = gen_cases(n, r, now)
         # files
@@ -151,18 +171,31 @@ def probe_part(chk, tier, r):
         cfgs = []
         for b in range(0, n, per_cfg):
             certs = []
+            endpoints = []
             for c in cases[b:b + per_cfg]:
                 idl = []
                 for kind, v in c['ids']:
                     idl.append({kind: v, 'challenge': 'http-01'})
-                certs.append({'account': 'a', 'endpoint': 'e', 'hooks': [], 'name': 'c', 'directory': c['dir'], 'key_type': 'ecdsa_p256',
-                              'file_name_format': 'c.{{ file_type }}.{{ ext }}', 'identifiers': idl,
-                              'renew_delay': c['renew_delay'], 'random_early_renew': c['random_early_renew']})
+                ce = {'account': 'a', 'endpoint': 'e%d' % c['i'], 'hooks': [], 'name': 'c', 'directory': c['dir'], 'key_type': 'ecdsa_p256',
+                      'file_name_format': 'c.{{ file_type }}.{{ ext }}', 'identifiers': idl}
+                ee = {'name': 'e%d' % c['i'], 'url': 'http://127.0.0.1:9/', 'tos_agreed': True}
+                for opt in ('renew_delay', 'random_early_renew'):
+                    pl = c['place'][opt]
+                    if pl['level'] == 'certificate':
+                        ce[opt] = c[opt]
+                        if pl['endpoint_decoy']:
+                            ee[opt] = pl['endpoint_decoy']
+                    elif pl['level'] == 'endpoint':
+                        ee[opt] = c[opt]
+                certs.append(ce)
+                endpoints.append(ee)
             # ids must be unique per configuration: name + key type -> give each certificate its own name
             for k, cc in enumerate(certs):
                 cc['name'] = 'n%d' % (b + k)
-            cfg = {'global': {'accounts_directory': d + '/acc', 'certificates_directory': d + '/unused'},
-                   'endpoint': [{'name': 'e', 'url': 'http://127.0.0.1:9/', 'tos_agreed': True}],
+            g = {'accounts_directory': d + '/acc', 'certificates_directory': d + '/unused'}
+            g.update({k: v for k, v in cases[b]['global'].items() if v})
+            cfg = {'global': g,
+                   'endpoint': endpoints,
                    'account': [{'name': 'a', 'contacts': [{'mailto': 'a@example.org'}]}], 'certificate': certs}
             p = '%s/cfg%d.toml' % (d, b)
             open(p, 'w', encoding='utf-8').write(C.toml_dumps(cfg))
@@ -200,6 +233,8 @@ def run_probe(chk, cases, cfgs, binary='acmed_v'):
                               c['renew_delay'] if c['covered'] else '-', c['random_early_renew'] if c['covered'] else '-'))
             if c['files'] == 'both' and c['covered']:
                 chk.count('delay_formula_checked')
+                chk.count('renew_delay_set_at_' + c['place']['renew_delay']['level'])
+                chk.count('random_early_renew_set_at_' + c['place']['random_early_renew']['level'])
             elif c['files'] != 'both':
                 chk.count('missing_file_checked')
             else:
